@@ -143,7 +143,19 @@ func (v objectValidator) requiredKeysString() string {
 
 // validate with rules
 func (v objectValidator) validateTypeRules(value jbytes.Bytes) (string, bool) {
-	for key := range v.requiredKeys {
+	objectNode, isObject := v.node_.(*schema.ObjectNode)
+	if !isObject {
+		return "", false
+	}
+
+	// Walk the key shortcuts in declaration order: ranging over the requiredKeys
+	// map would let Go's random map order pick the winner when several shortcuts
+	// match, and with it the verdict.
+	for _, k := range objectNode.Keys().Data {
+		key := k.Key
+		if _, required := v.requiredKeys[key]; !required {
+			continue
+		}
 		typ, ok := v.rootSchema.TypesList()[key]
 		if !ok {
 			continue
